@@ -305,6 +305,34 @@ def rule_usage_first(ck: Check, repo: Repo) -> None:
                     "must raise click.UsageError when another option of the group is present", repo.loc(mo))
 
 
+def rule_no_stale_state(ck: Check, repo: Repo) -> None:
+    """Per-path decisions must not depend on state left over by the paths examined before."""
+    r = ck.rule("R5", "pre-flight checks and the annotate loop decide each path on its own (no loop-carried state in a decision)")
+    targets = [f"{CA}.verify_paths_line_handling", f"{CA}.verify_paths_comment_style", repo.qualname_of(repo.commands()["annotate"])]
+    n = 0
+    for q in targets:
+        fn = repo.func(q)
+        ck.analysed_fn(q)
+
+        class H(Hooks):
+            def keep_carried(self, name):
+                return False
+
+        seen = set()
+        for d, leaf, _ in tabulate(fn, H()):
+            for atom in d:
+                n += 1
+                if "__in_loop" in atom and atom not in seen:
+                    seen.add(atom)
+                    var = re.search(r"(\w+)__in_loop", atom).group(1)
+                    cond = atom.split("::")[-1].lstrip("?")
+                    r.violation(q, f"decision `{cond.replace('__in_loop', '')}` uses `{var}` as left by the previous path",
+                                f"`{var}` is assigned inside the loop but not reset at the start of each iteration, so the check of one"
+                                f" path depends on which paths were examined before it (and on their order)", repo.loc(fn))
+        r.instance(q, {"function": q, "loop_carried_decisions": sorted(seen)})
+    r.floor(6, "decision atoms examined", got=n)
+
+
 def rule_raisers(ck: Check, repo: Repo) -> None:
     r = ck.rule("R4", "the anticipated failures are raised before anything is emitted")
     q = "reuse.comment.CommentStyle._create_comment_multi"
@@ -368,3 +396,4 @@ def run(ck: Check, repo: Repo) -> None:
     rule_accumulate(ck, repo)
     rule_usage_first(ck, repo)
     rule_raisers(ck, repo)
+    rule_no_stale_state(ck, repo)
